@@ -887,4 +887,33 @@ theorem render_idempotent (s : MsgState) (e1 e2 : Entropy) (hp : Plain s)
   have : top1 = top2 := by simpa using t2
   rw [this]
 
+/-- **Rendering is repeatable (every message without deleted parts, no S/MIME).** -/
+theorem render_idempotent_all (s : MsgState) (e1 e2 : Entropy) (hp : Plain s) (h : RenderOK s e1) :
+    planBytes (writeMsg (writeMsg s e1 false).2 e2 false).1.acts = planBytes (writeMsg s e1 false).1.acts := by
+  obtain ⟨g1, c1, n1, u1, d1, m1, p1, em1, at1, _, _, _⟩ := writeMsg_state s e1
+  obtain ⟨g2, _, _, _, _, _, _, _, _, _, _, _⟩ := writeMsg_state (writeMsg s e1 false).2 e2
+  obtain ⟨fg, fM, fR, fA, fE, fT⟩ := render_state_fixpoint s e1 e2 h
+  have hp1 : Plain (writeMsg s e1 false).2 := by
+    intro x hx; rw [p1] at hx; exact hp x hx
+  rw [writeMsg_refines_all s e1 hp, writeMsg_refines_all (writeMsg s e1 false).2 e2 hp1]
+  have hh : stageHeaders (defaultHeaders (writeMsg s e1 false).2 e2) {} = stageHeaders (defaultHeaders s e1) {} := by
+    apply stageHeaders_congr
+    · show defaultGen (writeMsg s e1 false).2 e2 = defaultGen s e1
+      rw [← g2, fg, g1]
+    all_goals rfl
+  rw [hh, fM, fR, fA, fE, fT]
+  have ht : contentTree (defaultHeaders (writeMsg s e1 false).2 e2) (writeMsg s e1 false).2.bMixed (writeMsg s e1 false).2.bRelated
+      (writeMsg s e1 false).2.bAlt (writeMsg s e1 false).2.embeds (writeMsg s e1 false).2.attachments =
+      contentTree (defaultHeaders s e1) (writeMsg s e1 false).2.bMixed (writeMsg s e1 false).2.bRelated
+      (writeMsg s e1 false).2.bAlt (writeMsg s e1 false).2.embeds (writeMsg s e1 false).2.attachments := by
+    apply contentTree_congr
+    · exact p1
+    · exact c1
+    · exact n1
+    · show (writeMsg s e1 false).2.embeds.length = s.embeds.length
+      rw [em1]; simp
+    · show (writeMsg s e1 false).2.attachments.length = s.attachments.length
+      rw [at1]; simp
+  rw [ht]
+
 end GoMail.Mime
